@@ -1,7 +1,8 @@
 """C05 / C03, lowering side of memory access (MemoryLowerer): which IR node a `m.write(...)` / `m.read()` becomes.
 
-  lower_write_expr                 a write to an undeclared cell is an error (and a harmless constant 0); a write with set= / reset=
-                                   goes to the latch path, any other write to the standard path — never the other way round
+  lower_write_expr                 a write to an undeclared cell, or to a cell an earlier write() already wrote (through whatever loop iteration,
+                                   call or nested scope), is an error (and a harmless constant 0); otherwise the cell is recorded as written and a
+                                   write with set= / reset= goes to the latch path, any other write to the standard path — never the other way round
   _lower_latch_write               the value is lowered once; the inlined form is chosen exactly when BOTH conditions were extracted
   _try_extract_inline_conditions   (None, None), or the two comparisons as written — set's operator and constant with set, reset's
                                    with reset — over ONE reference, the lowering of the identifier both compare
@@ -213,24 +214,34 @@ const_c = Contract(qualname="dsl_compiler/src/ir/builder.py::IRBuilder.const", p
 
 def _write_post(a, res):
     declared = z3.Select(a.old.self.parent.memory_refs.present, a.expr.memory_name)
+    cell = z3.Select(a.old.self.parent.memory_refs.vals, a.expr.memory_name)
+    written_before = z3.Select(a.old.self._written_cells.member, cell)
+    k = z3.String("any_cell")
     latch, std, errs, consts = CALLS.get("latch", []), CALLS.get("stdwrite", []), CALLS.get("error", []), CALLS.get("const", [])
     if errs:
-        return And(Not(declared), not latch and not std and len(consts) == 1 and ops.eq(consts[0].value, 0) is not False, ops.eq(consts[0].value, 0))
+        # refused: an undeclared cell, or a cell some earlier write() already wrote (whatever scope, iteration or call it came from);
+        # nothing is lowered and the set of written cells is unchanged
+        unchanged = z3.ForAll([k], z3.Select(a.self._written_cells.member, k) == z3.Select(a.old.self._written_cells.member, k))
+        return And(Or(Not(declared), written_before), len(errs) == 1 and not latch and not std and len(consts) == 1 and ops.eq(consts[0].value, 0) is not False, ops.eq(consts[0].value, 0),
+                   unchanged)
     flag = a.expr._fields.get("@is_latch")
     if flag is None:
         return False
+    # accepted: the first write of this cell, which is recorded (and no other cell is)
+    recorded = z3.ForAll([k], z3.Select(a.self._written_cells.member, k) == Or(k == cell, z3.Select(a.old.self._written_cells.member, k)))
     if latch:
-        return And(declared, flag, len(latch) == 1 and not std and latch[0].expr is a.expr and res is not None)
-    return And(declared, Not(flag), len(std) == 1 and std[0].expr is a.expr)
+        return And(declared, Not(written_before), recorded, flag, len(latch) == 1 and not std and latch[0].expr is a.expr and res is not None)
+    return And(declared, Not(written_before), recorded, Not(flag), len(std) == 1 and std[0].expr is a.expr)
 
 
 write_dispatch = Contract(
     qualname=ML + "lower_write_expr", params={"self": _SELF, "expr": _WRITE},
     requires=[("(reset capture)", _reset)],
-    ensures=[("undeclared cell: error and a constant 0; set=/reset= given: the latch path; otherwise the standard path", _write_post)],
+    ensures=[("undeclared cell or a cell already written: ONE error and a constant 0, nothing lowered; otherwise the cell is recorded as written and set=/reset= goes to the latch path, "
+              "anything else to the standard path", _write_post)],
     uses={**_USES, "MemoryLowerer._error": error_c, "MemoryLowerer._lower_latch_write": latch_c, "MemoryLowerer._lower_standard_write": std_write_c, "WriteExpr.is_latch_write": is_latch,
           "IRBuilder.const": const_c},
-    dynamic_types=_DYN, properties=("C05", "C03"), min_obligations=3, no_replay=True)
+    dynamic_types={**_DYN, "self": {**_DYN["self"], "_written_cells": ty.TSet(ty.Str)}}, properties=("C05", "C03", "C14"), min_obligations=4, no_replay=True)
 
 
 # ---------------------------------------------------------------------------------------------------------------------
